@@ -114,8 +114,9 @@ def culling(P, rep, rule="DEP.culling"):
         depth_k = F.params[2]
         # first if statement containing the bounding-box test
         gate = None
+        from .guard import expand_cond
         for x in F.walk():
-            if x.get("k") == "IfStmt" and "point_inside" in norm.render(P, x["c"][0]):
+            if x.get("k") == "IfStmt" and "point_inside" in norm.render(P, expand_cond(P, F, x["c"][0])):
                 gate = x
                 break
         if gate is None:
@@ -124,7 +125,7 @@ def culling(P, rep, rule="DEP.culling"):
         conj = []
 
         def split(c):
-            c = sc(c)
+            c = sc(expand_cond(P, F, c))
             if c.get("k") == "BinaryOperator" and c.get("op") == "&&":
                 split(c["c"][0])
                 split(c["c"][1])
